@@ -54,6 +54,10 @@ pub struct Case {
     /// before this query the document is removed, imported again and filled with these entries (validated cases only)
     #[serde(default)]
     pub rebuild: Option<(u16, Vec<EGen>)>,
+    /// afterwards the same queries once more through the client API of a real engine opened on this database
+    /// (`Doc::get_many`, `Doc::get_exact`: the query travels through the RPC layer and its reply through a stream)
+    #[serde(default)]
+    pub via_api: bool,
 }
 
 /// Synthetic ids at byte-order boundaries (used for namespaces and authors alike).
@@ -404,9 +408,11 @@ impl Prop for C05 {
         let raw = prop::option::weighted(0.2, (0u8..8, vec(0u8..8, 1..=3)));
         let noise = prop_oneof![1 => Just(vec![]), 1 => vec((any::<u16>(), crate::gen::noise()), 1..=8)];
         let rebuild = prop::option::weighted(0.2, (any::<u16>(), vec(egen(), 0..=10)));
-        (prop::bool::weighted(0.1), pools(8), vec(egen(), 0..=16), vec(qgen(), 1..=nq), raw, noise, rebuild)
-            .prop_map(|(file, pools, entries, queries, raw, noise, rebuild)| Case { file, pools, entries, queries, raw, noise, rebuild })
-            .boxed()
+        let plain_strategy_marker = (prop::bool::weighted(0.1), pools(8), vec(egen(), 0..=16), vec(qgen(), 1..=nq), raw, noise, rebuild)
+            .prop_map(|(file, pools, entries, queries, raw, noise, rebuild)| Case { file, pools, entries, queries, raw, noise, rebuild, via_api: false })
+            .boxed();
+        let api = (pools(8), vec(egen(), 0..=24), vec(qgen(), 1..=nq)).prop_map(|(pools, entries, queries)| Case { file: true, pools, entries, queries, raw: None, noise: vec![], rebuild: None, via_api: true });
+        prop_oneof![150 => plain_strategy_marker, 1 => api].boxed()
     }
 
     fn check(ctx: &mut Ctx, c: &Case) -> Outcome {
@@ -531,12 +537,62 @@ impl Prop for C05 {
                     }
                 }
             }
+            if c.via_api && !o.failed() && !raw {
+                // the same database behind a real engine: every query once more through the client API
+                o.class("queries-through-the-client-api-of-a-real-engine");
+                es(st.store.flush())?;
+                let path = st.path.clone().ok_or("file store without a path")?;
+                drop(st);
+                let dir = ctx.fresh_path("c05api-dir");
+                es(std::fs::create_dir_all(&dir))?;
+                es(std::fs::rename(&path, dir.join("docs.redb")))?;
+                let (endpoint, gossip, blobs) = crate::props::c07::api_fixture(ctx)?;
+                let res: R<()> = ctx.rt.block_on(async {
+                    use crate::props::c07::within;
+                    use futures_util::StreamExt;
+                    let docs = within("spawning the engine", iroh_docs::protocol::Docs::persistent(dir.clone()).spawn(endpoint, blobs, gossip)).await?.map_err(|e| format!("spawn: {e:?}"))?;
+                    let doc = es(within("open", docs.open(ns)).await?)?.ok_or("the document is not there behind the engine")?;
+                    for q in &c.queries {
+                        let r = resolve_with(q, &authors, &keys, false);
+                        let Expect::Exact(want) = naive(&contents, &r) else { continue };
+                        let stream = es(within("get_many", doc.get_many(build_query(&r))).await?)?;
+                        tokio::pin!(stream);
+                        let mut got = vec![];
+                        while let Some(x) = within("reply item", stream.next()).await? {
+                            got.push(es(x)?);
+                        }
+                        let want_e: Vec<iroh_docs::Entry> = want.iter().map(|e| e.entry().clone()).collect();
+                        o.count("queries_compared", 1);
+                        if got != want_e {
+                            o.fail(
+                                if r.latest { "C05/latest-per-key" } else { "C05/flat" },
+                                format!("through the client API: query [{}] on {} returned {} entries {:?}, expected {}", describe_query(&r), describe_all(&contents), got.len(), got.iter().map(|e| (hex::encode(e.key()), e.timestamp())).collect::<Vec<_>>(), describe_all(&want)),
+                            );
+                            break;
+                        }
+                        if let (Some(a), KeyFilter::Exact(k)) = (r.author, &r.keyf) {
+                            let got = es(within("get_exact", doc.get_exact(a, k, r.include_empty)).await?)?;
+                            let want = contents.iter().find(|e| e.author() == a && e.key() == &k[..] && (r.include_empty || !is_empty(e))).map(|e| e.entry().clone());
+                            if got != want {
+                                o.fail("C05/get-exact", format!("through the client API: get_exact({},{},{}) = {:?} expected {:?}", hex::encode(&a.as_bytes()[..3]), hex::encode(k), r.include_empty, got.map(|e| e.timestamp()), want.map(|e| e.timestamp())));
+                                break;
+                            }
+                        }
+                    }
+                    drop(doc);
+                    within("shutdown", iroh::protocol::ProtocolHandler::shutdown(&docs)).await?;
+                    Ok(())
+                });
+                let _ = std::fs::remove_dir_all(&dir);
+                verif::set_clock(None);
+                return res;
+            }
             verif::set_clock(None);
             st.cleanup();
             Ok(())
         })();
         if let Err(e) = r {
-            o.fail("C05/harness-error", e);
+            o.fail(if e.starts_with("harness-timeout") { "C05/harness-timeout" } else { "C05/harness-error" }, e);
         }
         o
     }
